@@ -381,10 +381,19 @@ func (w *World) threadAlts(th *thread) (alts []alt, hasDefault bool) {
 			return alts, true
 		}
 		due := !c.rdl.IsZero() && !now.Before(c.rdl)
+		if !c.rdl.IsZero() && !r.parkAt.IsZero() && !r.parkAt.Before(c.rdl) {
+			// the deadline had passed before Read was called: a net.Conn fails
+			// such a call at once, whatever is waiting to be read
+			answer("timeout(expired before the call)", Cost{}, 0, simTimeout{}, nil)
+			return alts, true
+		}
 		if c.stallNext {
 			if !c.rdl.IsZero() {
-				// the pause chosen earlier outlasts the deadline
-				answer("timeout(stall)", Cost{}, 0, simTimeout{}, func() { c.stallNext = false })
+				// the pause chosen earlier outlasts the deadline: nothing arrives,
+				// and the read ends when (fake) time has reached the deadline
+				if due {
+					answer("timeout(stall)", Cost{}, 0, simTimeout{}, func() { c.stallNext = false })
+				}
 				return alts, true
 			}
 			c.stallNext = false // no deadline: the pause is invisible
